@@ -401,6 +401,35 @@ func tableLocks(repo string) string {
 	return b.String()
 }
 
+// packageLevelMutex reports whether the package declares `var <name> sync.Mutex` at top level.
+func packageLevelMutex(files map[string]*ast.File, name string) bool {
+	for _, f := range files {
+		for _, d := range f.Decls {
+			gd, ok := d.(*ast.GenDecl)
+			if !ok || gd.Tok != token.VAR {
+				continue
+			}
+			for _, sp := range gd.Specs {
+				vs, ok := sp.(*ast.ValueSpec)
+				if !ok {
+					continue
+				}
+				for _, n := range vs.Names {
+					if n.Name != name {
+						continue
+					}
+					if se, ok := vs.Type.(*ast.SelectorExpr); ok {
+						if x, ok := se.X.(*ast.Ident); ok && x.Name == "sync" && se.Sel.Name == "Mutex" {
+							return true
+						}
+					}
+				}
+			}
+		}
+	}
+	return false
+}
+
 // crlSection describes the critical section of GenerateCertificateRevocationList: whether
 // `a.crlMutex.Lock(); defer a.crlMutex.Unlock()` is taken as a top-level statement pair, and for each
 // call that reads or writes the CRL state whether it comes lexically after that pair.
@@ -416,6 +445,7 @@ func crlSection(fset *token.FileSet, files map[string]*ast.File) string {
 			if !ok {
 				continue
 			}
+			shared := false
 			isCrl := func(e ast.Expr) (string, bool) {
 				c, ok := e.(*ast.CallExpr)
 				if !ok {
@@ -425,6 +455,12 @@ func crlSection(fset *token.FileSet, files map[string]*ast.File) string {
 				if !ok {
 					return "", false
 				}
+				// the package-level mutex shared by every Authority of the process (fix 7329bb4) …
+				if id, ok := s.X.(*ast.Ident); ok && id.Name == "crlMutex" && packageLevelMutex(files, "crlMutex") {
+					shared = true
+					return s.Sel.Name, true
+				}
+				// … or a field of the receiver (one mutex per Authority)
 				s2, ok := s.X.(*ast.SelectorExpr)
 				if !ok || s2.Sel.Name != "crlMutex" {
 					return "", false
@@ -465,7 +501,7 @@ func crlSection(fset *token.FileSet, files map[string]*ast.File) string {
 				}
 				return true
 			})
-			return fmt.Sprintf("/-- GenerateCertificateRevocationList: crlMutex taken at the top with a deferred unlock -/\ndef crlLockedAtTop : Bool := %v\n\n/-- calls that read or write the CRL state, and whether each is lexically inside that section -/\ndef crlCalls : List (String × Bool) := [%s]\n", locked, strings.Join(rows, ", "))
+			return fmt.Sprintf("/-- GenerateCertificateRevocationList: crlMutex taken at the top with a deferred unlock -/\ndef crlLockedAtTop : Bool := %v\n\n/-- that mutex is a package-level variable: one critical section for every Authority of the process (the old and the new one share a database during a reload) -/\ndef crlMutexShared : Bool := %v\n\n/-- calls that read or write the CRL state, and whether each is lexically inside that section -/\ndef crlCalls : List (String × Bool) := [%s]\n", locked, shared && packageLevelMutex(files, "crlMutex"), strings.Join(rows, ", "))
 		}
 	}
 	die("GenerateCertificateRevocationList not found")
